@@ -36,18 +36,21 @@ example : emits 2019 .nullish false true = false := by decide
 example : emits 2019 .nullish true false = true := by decide
 
 /-- the guard sites in the source are exactly the four modelled ones, and every producer of newer syntax is
-    one of: print-through of input syntax (`?.`), or a guarded rewrite -/
+    one of: print-through of input syntax (`?.` is only printed for nodes that carry the Optional flag — the three `no-gate`
+    sites; the one function that SETS that flag, toNullishExpr, is called inside the body of the minVersion(2020) gate), or a
+    rewrite inside the body of its gate -/
 theorem gates_ok :
     Verif.Gen.JsVersionGates.gates =
       ["jsMinifier.minifyExpr: minVersion(2015)", "jsMinifier.minifyExpr: minVersion(2016)",
        "jsMinifier.minifyStmt: minVersion(2019)", "jsMinifier.optimizeCondExpr: minVersion(2020)"] ∧
     Verif.Gen.JsVersionGates.producers =
       ["jsMinifier.minifyAlias: minifyString allowTemplate=false", "jsMinifier.minifyAlias: minifyString allowTemplate=false",
-       "jsMinifier.minifyExpr: minifyString allowTemplate=m.o.minVersion(2015)", "jsMinifier.minifyExpr: write(expBytes)",
-       "jsMinifier.minifyExpr: write(optChainBytes)", "jsMinifier.minifyExpr: write(optChainBytes)",
-       "jsMinifier.minifyExpr: write(optChainBytes)", "jsMinifier.minifyPropertyName: minifyString allowTemplate=false",
+       "jsMinifier.minifyExpr: minifyString allowTemplate=m.o.minVersion(2015)",
+       "jsMinifier.minifyExpr: write(expBytes) inside minVersion(2016)",
+       "jsMinifier.minifyExpr: write(optChainBytes) inside no-gate", "jsMinifier.minifyExpr: write(optChainBytes) inside no-gate",
+       "jsMinifier.minifyExpr: write(optChainBytes) inside no-gate", "jsMinifier.minifyPropertyName: minifyString allowTemplate=false",
        "jsMinifier.minifyStmt: minifyString allowTemplate=false", "jsMinifier.minifyStmt: minifyString allowTemplate=false",
-       "jsMinifier.optimizeCondExpr: toNullishExpr"] := by decide
+       "jsMinifier.optimizeCondExpr: toNullishExpr inside minVersion(2020)"] := by decide
 
 /-- every CLI flag is bound to the option field its name says -/
 theorem cli_flags_ok : Verif.Gen.CliFlags.flags =
